@@ -1,5 +1,6 @@
 import EchoModel.C01
 import EchoModel.C02
+import EchoModel.C03
 import EchoModel.C14
 import EchoModel.Router
 import EchoModel.RouterSpec
